@@ -491,9 +491,10 @@ def r48(ctx, repo):
                   else (R(0), everything)):
             hist_f.append([m, ("F",), r, ("F",), R(), ("F",)])
             hist_f.append([m, r, ("F",), R(), ("F",)])
-            hist_f.append([r, ("F",), m, ("F",), R(), ("F",)])
             hist_t.append([m, r, ("T",), R(), ("F",)])
-            hist_t.append([m, ("T",), r, ("F",), R(), ("F",)])
+            if ctx.tier == "thorough":
+                hist_f.append([r, ("F",), m, ("F",), R(), ("F",)])
+                hist_t.append([m, ("T",), r, ("F",), R(), ("F",)])
     hist_f.append([("m", "A"), ("m", "B"), ("F",), everything, ("F",), R(),
                    ("F",)])
     if ctx.tier == "thorough":
